@@ -480,6 +480,12 @@ m("c18-accesslist-first-address", "C18", "x/evm/types/access_list.go",
   "\t\t\tAddress:     common.HexToAddress(tuple.Address),", "\t\t\tAddress:     common.HexToAddress(al[0].Address),",
   "ToEthAccessList#tuple-address", "every unwrapped tuple carries the first tuple's address")
 
+m("c18-tipcap-pointer-only", "C18", "x/evm/types/dynamic_fee_tx.go",
+  "\tif tx.GasTipCap == nil || tx.GasTipCap.IsNil() {", "\tif tx.GasTipCap == nil {", "GasTipCap.IsNegative",
+  "only the pointer of the tip cap is tested before IsNegative")
+m("c18-indexer-trusts-recorded-hash", "C18", "indexer/kv_indexer.go",
+  "\t\t\ttxHash := ethTx.Hash()\n", "\t\t\ttxHash := common.HexToHash(ethMsg.Hash)\n", "reads-recorded-hash",
+  "the indexer files the message under the hash recorded in it")
 # ---------------- C19 ----------------
 m("c19-feemarket-blockgas-not-imported", "C19", "x/feemarket/genesis.go",
   "\tk.SetBlockGasWanted(ctx, data.BlockGas)\n", "", "x/feemarket#GenesisState.BlockGas", "exported block gas figure is dropped on import: the first base fee after import differs")
@@ -501,6 +507,14 @@ m("c19-evm-import-storage-needs-code", "C19", "x/evm/genesis.go",
   "x/evm", "storage of code-less accounts is exported but not restored")
 
 # ---------------- C20 ----------------
+m("c20-no-memstore-rebuild", "C20", "app/app.go",
+  "\t\tif app.LastBlockHeight() > 0 {\n\t\t\tapp.CapabilityKeeper.InitMemStore(app.BaseApp.NewUncachedContext(true, tmproto.Header{}))\n\t\t}\n",
+  "\t\t_ = tmproto.Header{}\n", "capabilities-rebuilt-after-load",
+  "the capability memory store is left to the first begin blocker")
+m("c20-memstore-rebuild-behind-a-flag", "C20", "app/app.go",
+  "\t\tif app.LastBlockHeight() > 0 {\n\t\t\tapp.CapabilityKeeper.InitMemStore(",
+  "\t\tif app.LastBlockHeight() > 0 && invCheckPeriod > 0 {\n\t\t\tapp.CapabilityKeeper.InitMemStore(", "capabilities-rebuilt-after-load",
+  "the rebuild depends on a node-local option")
 m("c20-registercoin-registers-extensions", "C20", "x/erc20/keeper/proposals.go",
   "\tk.SetERC20Map(ctx, common.HexToAddress(pair.Erc20Address), pair.GetID())\n\n\treturn &pair, nil",
   "\tk.SetERC20Map(ctx, common.HexToAddress(pair.Erc20Address), pair.GetID())\n\tif err := k.RegisterERC20Extensions(ctx); err != nil {\n\t\treturn nil, err\n\t}\n\n\treturn &pair, nil",
